@@ -751,6 +751,13 @@ func (vc *VC) evalCall(e *Expr, env *SpecEnv) SV {
 		return mathBool(app(">=", t, env.old.alloc))
 	case "isnil":
 		return mathBool(vc.nilOf(ev(0)))
+	case "ifacenotnil":
+		// true unless x is an interface value that is nil
+		x := ev(0)
+		if x.sortIn(vc) == "Iface" {
+			return mathBool(not(vc.nilOf(x)))
+		}
+		return mathBool(tTrue)
 	case "unbox":
 		// unbox(x, "path.Type"): the concrete value of that type held by interface value x
 		x := ev(0)
@@ -764,6 +771,47 @@ func (vc *VC) evalCall(e *Expr, env *SpecEnv) SV {
 			return mathInt("0")
 		}
 		return SV{t: vc.unbox(x.t, t), typ: t}
+	case "pointee":
+		// pointee(x): the cell an interface-wrapped pointer (x = interface{}(&v)) points to
+		x := ev(0)
+		if x.dyn == nil || x.dyn.typ == nil {
+			vc.errorf("spec: pointee() needs an interface value boxed from a pointer in the calling function")
+			return mathInt("0")
+		}
+		return vc.derefSpec(*x.dyn, env)
+	case "decoded":
+		// decoded(bz, x): the value an (assumed) decoder produces from bz for the pointee type of x
+		bz := ev(0)
+		var et types.Type
+		if args[1].Op == "str" {
+			et = vc.eng.parseGoType(args[1].Name)
+		} else if x := ev(1); x.dyn != nil && x.dyn.typ != nil {
+			et = derefType(x.dyn.typ)
+		}
+		if et == nil {
+			vc.errorf("spec: decoded(bz, x): x must be a type name or an interface value boxed from a pointer")
+			return mathInt("0")
+		}
+		srt := vc.sortOf(et)
+		fn := "decoded_" + sanitize(srt)
+		vc.declRaw("fn:"+fn, fmt.Sprintf("(declare-fun %s (%s) %s)", fn, bz.sortIn(vc), srt))
+		return SV{t: app(fn, bz.t), typ: et}
+	case "decodable":
+		bz := ev(0)
+		var et types.Type
+		if args[1].Op == "str" {
+			et = vc.eng.parseGoType(args[1].Name)
+		} else if x := ev(1); x.dyn != nil && x.dyn.typ != nil {
+			et = derefType(x.dyn.typ)
+		}
+		if et == nil {
+			vc.errorf("spec: decodable(bz, x): x must be a type name or an interface value boxed from a pointer")
+			return mathBool(tTrue)
+		}
+		srt := vc.sortOf(et)
+		fn := "decodable_" + sanitize(srt)
+		vc.declRaw("fn:"+fn, fmt.Sprintf("(declare-fun %s (%s) Bool)", fn, bz.sortIn(vc)))
+		return mathBool(app(fn, bz.t))
 	case "unchanged":
 		// unchanged(prefix, ...): every ghost whose name starts with prefix. has its entry value
 		var eqs []T
